@@ -103,6 +103,8 @@ pub struct Stats {
     pub memo_revisits: usize,
     pub memo_revisit_first_failed: usize,
     pub rule_calls: usize,
+    /// deepest rule nesting reached
+    pub max_rule_depth: usize,
     pub enum_fields_set: usize,
     pub multi_part_fields: usize,
     pub includes_entered: usize,
@@ -173,6 +175,7 @@ pub struct Interp<'a> {
     fuel: usize,
     diverged: bool,
     depth: usize,
+    rule_depth: usize,
     in_lookahead: usize,
     nest: usize,
     prog: usize,
@@ -180,7 +183,8 @@ pub struct Interp<'a> {
     hooks_optional: Vec<HookCall>,
 }
 
-const MAX_DEPTH: usize = 600;
+/// nesting of evaluations (expressions and rules); the worker threads have 1 GB of stack
+const MAX_DEPTH: usize = 60_000;
 
 impl<'a> Interp<'a> {
     pub fn new(g: &'a Grammar, shapes: &'a Shapes, input: &'a str, cfg: Cfg) -> Self {
@@ -201,6 +205,7 @@ impl<'a> Interp<'a> {
             fuel,
             diverged: false,
             depth: 0,
+            rule_depth: 0,
             in_lookahead: 0,
             nest: 0,
             prog: 0,
@@ -625,6 +630,10 @@ impl<'a> Interp<'a> {
                     self.depth -= 1;
                     return Err(());
                 }
+                self.rule_depth += 1;
+                if self.rule_depth > self.stats.max_rule_depth {
+                    self.stats.max_rule_depth = self.rule_depth;
+                }
                 if self.cfg.record_trace {
                     self.trace.push(Ev::Start { rule: n.name.clone(), pos: p, abandoned: false });
                 }
@@ -646,6 +655,7 @@ impl<'a> Interp<'a> {
                     self.trace.push(Ev::Result { ok: r.is_ok(), abandoned: false });
                 }
                 self.depth -= 1;
+                self.rule_depth -= 1;
                 r
             }
         }
